@@ -122,12 +122,17 @@ func c14R1(c *Ctx, rule string) {
 	{
 		var pop *ssa.Store
 		var br *ssa.Call
+		viaNext := false
 		allInstrs(a.read, func(i ssa.Instruction) {
 			if st := a.isPLensStore(i); st != nil {
 				pop = st
 			}
 			if call := a.bufCall(i, "Read"); call != nil {
 				br = call
+			}
+			// the same consumption spelled copy(target, buf.Next(n))
+			if call := a.bufCall(i, "Next"); call != nil && br == nil && deliveredByCopy(call, a.read) {
+				br, viaNext = call, true
 			}
 		})
 		ok := pop != nil && br != nil
@@ -146,6 +151,9 @@ func c14R1(c *Ctx, rule string) {
 			dataLen := ssa.Value(nil)
 			if isRs && rs.High != nil && rs.Low == nil {
 				dataLen = rs.High
+			}
+			if viaNext {
+				dataLen = br.Call.Args[1]
 			}
 			headOK := false
 			if ld, isLd := stripConv(dataLen).(*ssa.UnOp); dataLen != nil && isLd && ld.Op == token.MUL {
@@ -598,6 +606,13 @@ func c14R5(c *Ctx, rule string) {
 						}
 					}
 					okKey := strings.Contains(Expr(key), "String(")
+					if !okKey {
+						// the key may travel through a variable, a captured variable or a small closure's parameter
+						okKey = allSourcesSatisfy(p, key, func(v ssa.Value) bool {
+							call, isC := v.(*ssa.Call)
+							return isC && strings.HasSuffix(calleeName(&call.Call), ".String") && strings.Contains(calleeName(&call.Call), "net.")
+						}, 0, map[ssa.Value]bool{})
+					}
 					c.Check(okLock && okKey, rule, fmt.Sprintf("%s on the address map in %s (%s)", kind, shortFn(f), strings.TrimPrefix(c.at(use), "internal/client/")), c.at(use), "under streamsMutex, key addr.String()",
 						fmt.Sprintf("mutex held=%v, key is addr.String()=%v (%s)", okLock, okKey, Expr(key)))
 				}
